@@ -127,10 +127,6 @@ func part12(n int) {
 		}
 		// receiver limits: unlimited, exactly the longest message, or comfortably above
 		rcfg.Limit = pick(0, 0, maxLen, maxLen+1, 2*maxLen+100)
-		if rcfg.Limit != 0 && rcfg.Limit < 125 {
-			// the implementation applies MessageLengthLimit to control payloads as well (not a C12 question)
-			rcfg.Limit = 125
-		}
 		if comp && rcfg.Limit != 0 {
 			// the limit also applies to the compressed payload, which may be a few bytes longer than the message
 			rcfg.Limit = 2*maxLen + 100
